@@ -19,7 +19,6 @@ import (
 	"larking.io/larking"
 	"pgregory.net/rapid"
 
-
 	"verif/drive"
 	"verif/evid"
 	"verif/fixture"
@@ -154,10 +153,16 @@ func Check(c Case) ([]evid.Violation, info) {
 			if len(owners[s]) >= 2 {
 				in.twoOwners = true
 			}
-			for probe := 0; probe < 16; probe++ {
+			for probe := 0; probe < 20; probe++ {
 				var res drive.Result
-				kind := probe % 4
+				kind := probe % 5
+				if _, ok := fixture.TreeProbe[s]; kind == 4 && !ok {
+					kind = 0
+				}
 				switch kind {
+				case 4:
+					// a binding whose route-tree nodes are shared with other services' bindings
+					res = drive.Serve(mux, drive.Request("GET", fixture.TreeProbe[s], "", nil, nil, 0))
 				case 0:
 					res = drive.Serve(mux, drive.Request("GET", "/fx/"+strings.ToLower(s), "", nil, nil, 0))
 				case 1:
@@ -204,6 +209,11 @@ func Check(c Case) ([]evid.Violation, info) {
 					}
 				}
 				set := owners[s]
+				if kind == 4 && s == "SvcD" && len(set) == 0 {
+					// "/fxt/lit" is also covered by SvcC's variable binding "/fxt/{f_string}":
+					// without a live SvcD the less specific rule takes the request
+					set = owners["SvcC"]
+				}
 				switch {
 				case unimpl && len(set) > 0:
 					return fail(step, "live-method-unimplemented", "live-method-unimplemented", "%s has live owners %v but probe kind %d answered unimplemented/not found (HTTP %d %q)", s, keys(set), kind, res.Rec.Code, strings.TrimSpace(res.Rec.Body.String()))
